@@ -456,14 +456,15 @@ type LCase struct {
 
 var propLife = hx.Prop[LCase]{
 	ID: pid, Name: "lifecycle",
-	Rule: "Start with period 0 (must return at once, Join returns, nothing deleted although the store holds ancient mail); Start with a " +
+	Rule: "Start with period 0 (must return at once, Join returns, nothing deleted although the store holds ancient mail); a period of 100-900 ms " +
+		"(not disabled: Start keeps running until shutdown; a scan deletes three-day-old mail and keeps mail dated ahead); Start with a " +
 		"positive period cancelled after 0-40 ms of its initial one-minute wait; DoScan over 3 mailboxes with a 30 s inter-mailbox sleep " +
 		"cancelled after 0-40 ms: Start/DoScan/Join must return within 2 s (one-sided bound, the configured sleeps are 30-60 s); " +
 		"non-trivial = a cancellation case",
 	Quick: 30, Thorough: 120,
 	Gen: func(t *rapid.T) LCase {
 		return LCase{Backend: rapid.SampledFrom([]string{"mem", "file"}).Draw(t, "backend"),
-			Mode: rapid.SampledFrom([]string{"zero", "cancel-wait", "cancel-scan", "cancel-scan", "cancel-mid", "cancel-mid"}).Draw(t, "mode"), DelayMs: rapid.IntRange(0, 40).Draw(t, "delay")}
+			Mode: rapid.SampledFrom([]string{"zero", "cancel-wait", "cancel-scan", "cancel-scan", "cancel-mid", "cancel-mid", "subsecond"}).Draw(t, "mode"), DelayMs: rapid.IntRange(0, 40).Draw(t, "delay")}
 	},
 	Run: func(c LCase) *hx.Outcome {
 		o := &hx.Outcome{}
@@ -517,6 +518,32 @@ var propLife = hx.Prop[LCase]{
 				return o
 			}
 			within("Join after cancel", 2*time.Second, rs.Join)
+		case "subsecond":
+			// a period of less than a second is a period: the scanner is not disabled (Start keeps
+			// running until shutdown), and a scan deletes what is days old and keeps what lies in the future
+			o.NonTrivial = true
+			period := time.Duration(100+c.DelayMs*20) * time.Millisecond // 100..900 ms
+			oldID, _ := st.AddMessage(hx.NewDelivery("sub", nil, nil, time.Now().Add(-72*time.Hour), "old", []byte("x")))
+			newID, _ := st.AddMessage(hx.NewDelivery("sub", nil, nil, time.Now().Add(time.Hour), "new", []byte("x")))
+			rs := storage.NewRetentionScanner(config.Storage{RetentionPeriod: period, RetentionSleep: 0}, st)
+			if err := rs.DoScan(ctx); err != nil {
+				o.Failf(pid+":scan-error", "[%s] DoScan with period %v: %v", c.Backend, period, err)
+			}
+			if m, err := st.GetMessage("sub", oldID); err == nil && m != nil {
+				o.Failf(pid+":expired-kept", "[%s] period %v: a message three days old survived the scan", c.Backend, period)
+			}
+			if m, err := st.GetMessage("sub", newID); err != nil || m == nil {
+				o.Failf(pid+":young-deleted", "[%s] period %v: a message dated an hour ahead was deleted by the scan (%v)", c.Backend, period, err)
+			}
+			done := make(chan struct{})
+			go func() { rs.Start(ctx); close(done) }()
+			select {
+			case <-done:
+				o.Failf(pid+":scanner-disabled", "[%s] Start returned at once with a retention period of %v: the scanner treats it as disabled", c.Backend, period)
+			case <-time.After(300 * time.Millisecond):
+			}
+			cancel()
+			within("Start after cancel (period "+period.String()+")", 2*time.Second, func() { <-done })
 		case "cancel-scan":
 			o.NonTrivial = true
 			rs := storage.NewRetentionScanner(config.Storage{RetentionPeriod: time.Hour, RetentionSleep: 30 * time.Second}, st)
